@@ -1,14 +1,14 @@
 SPECIFICATION Spec
-CONSTANTS Depth = 2
- MaxOps = 1
- Pats <- None
- Targs <- TargsAll
- Insts <- None
- CmpSet <- CmpAll
+CONSTANTS Depth = 1
+ MaxOps = 2
+ Pats <- PatsTiny
+ Targs <- TargsTiny
+ Insts <- InstsSmall
+ CmpSet <- CmpSmall
  Cmp3Set <- Cmp3Tiny
- Kinds <- KindsPair
- Record = TRUE
- EmitAll = TRUE
+ Kinds <- KindsHist
+ Record = FALSE
+ EmitAll = FALSE
 INVARIANT StepsLawful
 INVARIANT LookLawful
 INVARIANT InstsFunctional
